@@ -8,7 +8,7 @@ from ..core import Viol
 
 # ------------------------------------------------------------------ interpreter
 
-def make_cfg_interp(graph, argnames, defaults=None, entry="0"):
+def make_cfg_interp(graph, argnames, defaults=None, entry="0", signature=None):
     """graph: name -> block with .instructions/.jump_targets (WritableASTBlock)
     or .tree/._jump_targets (PythonASTBlock).  Returns make(globals)->callable
     executing exactly what the statement of C08 prescribes."""
@@ -39,12 +39,32 @@ def make_cfg_interp(graph, argnames, defaults=None, entry="0"):
             cret = compile(ast.fix_missing_locations(ast.Expression(v)), "<ret %s>" % k, "eval")
         comp[k] = (cstm, ctest, cret, jts)
 
+    cbind = None
+    if signature is not None:
+        # bind the arguments exactly as the function would: a function with the
+        # same parameter list (defaults are evaluated when it is defined, as
+        # for the reference) that returns its locals
+        binder = ast.FunctionDef(
+            name="__vmon_bind__", args=copy.deepcopy(signature),
+            body=[ast.Return(ast.Call(ast.Name("locals", ast.Load()), [], []))],
+            decorator_list=[], returns=None, type_comment=None, type_params=[])
+        cbind = compile(ast.fix_missing_locations(ast.Module([binder], [])), "<bind>", "exec")
+
     def mk(g):
+        bind = None
+        if cbind is not None:
+            gg = dict(g)
+            exec(cbind, gg)
+            bind = gg["__vmon_bind__"]
+
         def fn(*args):
             ns = dict(g)
-            if defaults:
-                ns.update(defaults)
-            ns.update(zip(argnames, args))
+            if bind is not None:
+                ns.update(bind(*args))
+            else:
+                if defaults:
+                    ns.update(defaults)
+                ns.update(zip(argnames, args))
             cur = entry
             steps = 0
             while True:
